@@ -538,6 +538,21 @@ def opJsonDoc (j : Json) : Except String Json := do
     | .error e => pure (obj [("exc", .str (reprStr e))])
   | _ => throw s!"unknown jsondoc request {what}"
 
+/-- op "fitlinear" (exact rationals): {"blocks": [{"key", "rows": [[q]], "y": [q], "dy": [q]}] (in the order handed over),
+    "npar": n, "priors": [[index, value, width]]} -> {"p", "S", "chisq", "order": keys as stacked} | {"exc": "singular"} -/
+def opFitLinear (j : Json) : Except String Json := do
+  let bj : List Json ← get j "blocks"
+  let blocks ← bj.mapM (fun b => do
+    pure ({ key := ← get b "key", rows := ← get b "rows", y := ← get b "y", dy := ← get b "dy" } : Gls.Block))
+  let npar : Nat ← get j "npar"
+  let pj : List Json ← get j "priors"
+  let priors ← pj.mapM (fun p => match p with
+    | .arr #[i, v, w] => do pure ((← jNat i), ((← (dec v : Except String Rat)), (← (dec w : Except String Rat))))
+    | _ => throw "prior [index, value, width] expected")
+  match Gls.fitLinear blocks npar priors with
+  | none => pure (obj [("exc", .str "singular")])
+  | some (p, S, c) => pure (obj [("p", enc p), ("S", enc S), ("chisq", enc c), ("order", enc ((Gls.sortBlocks blocks).map (·.key)))])
+
 def dispatch (op : String) (j : Json) : Except String Json :=
   match op with
   | "gamma" => opGamma false j
@@ -557,6 +572,7 @@ def dispatch (op : String) (j : Json) : Except String Json :=
   | "gevp" => opGevp j
   | "gls" => opGls j
   | "ift" => opIft j
+  | "fitlinear" => opFitLinear j
   | "tree" => opTree j
   | "textblock" => opTextBlock j
   | "jsondoc" => opJsonDoc j
